@@ -201,8 +201,9 @@ type Driver struct {
 	subscriptions     map[int][][]byte
 	subscriptionsLock *sync.Mutex
 
-	errs chan error
-	done chan bool
+	errs      chan error
+	done      chan bool
+	closeOnce sync.Once
 }
 
 // Open opens the underlying generic.Driver, and by extension the channel.Channel and Transport
@@ -257,7 +258,11 @@ func (d *Driver) Close() error {
 
 	verifYield("NC_done")
 
-	d.done <- true
+	// close (once) rather than send: the read loop may have exited already, or be parked handing an
+	// error to an rpc that will never come, and would never receive from done
+	d.closeOnce.Do(func() {
+		close(d.done)
+	})
 
 	verifYield("NC_wait")
 
